@@ -1,4 +1,8 @@
+import FrappyModel.Generated.C05
 import FrappyModel.Generated.C20
 import FrappyModel.Node.Logging
+import FrappyModel.Node.Update
+import FrappyModel.Node.UpdateSys
 import FrappyModel.Small.Rotate
+import FrappyModel.Spec.C05
 import FrappyModel.Spec.C20
